@@ -1,5 +1,7 @@
 import Driver.Common
 import FianoModel.TightenMe.Model
+import FianoModel.TightenMe.Tree
+import FianoModel.Uefi.EditDrv
 
 /-!
   Line protocol of the C12 driver.
@@ -8,6 +10,15 @@ import FianoModel.TightenMe.Model
                                    last saved image in a fresh process state)
       → "P=<class>[ <step>…]"      class ∈ ok | err | notflash | unmodelled ; processing stops at the first
                                    failing P/S/R; a failing T leaves the tree unchanged and continues
+
+    tsteps <imghex> <op>…          one `utk <image> <op>…` in a fresh process on the SHARED tree model
+                                   (FianoModel/TightenMe/Tree.lean); <op> = `tighten` or an op word of
+                                   FianoModel/Uefi/EditDrv.lean (if:… ip:… dxe:… rm:… rp:… pe:… save find:… …)
+      → "cli:<errclass>" | "parse:<errclass>"
+      | "<status> <d0> <s1>,<s2>,…"   exactly the `steps` answer of EditDrv: digest of the whole tree
+                                   after every visitor ("<digest>/<fnv>:<len>" for save), "!<errclass>" for
+                                   the visitor that failed
+    ttree <k> <imghex> <op>…       → "ok <canonical dump of the tree after the first k visitors> free=<n>"
 -/
 
 open Fiano Fiano.TightenMe Driver
@@ -67,7 +78,75 @@ def steps : List Char → St → List String → List String
 
 def validOps (s : String) : Bool := s.toList.all (fun c => c == 'T' || c == 'S' || c == 'R')
 
+/-! ### the tree-level run -/
+
+namespace TreeDrv
+open Fiano.Uefi (Op OpSpec St Run errName digestOf dumpText fnvOf joinWith)
+open Fiano.TightenMe.T
+
+def hooks : Uefi.Hooks := Uefi.EditDrv.hooks
+
+/-- an op word: `tighten`, or one of the shared edit-op words -/
+def parseWord (w : String) : Option (Option OpSpec) :=
+  if w = "tighten" then some none else (Uefi.EditDrv.parseOp w).map some
+
+/-- re-interleave: the i-th `none` is tighten_me, the others take the parsed visitors in order -/
+def weave : List (Option OpSpec) → List Op → Option (List TOp)
+  | [], [] => some []
+  | none :: ws, ops => (weave ws ops).map (TOp.tighten :: ·)
+  | some _ :: ws, o :: ops => (weave ws ops).map (TOp.op o :: ·)
+  | _, _ => none
+
+def isSave : TOp → Bool
+  | .op .save => true
+  | _ => false
+
+def trace : List TOp → TRun → List String → String × List String × TRun
+  | [], s, acc => ("ok", acc.reverse, s)
+  | op :: ops, s, acc =>
+    match stepT hooks op s with
+    | .error e => (errName e, (("!" ++ errName e) :: acc).reverse, s)
+    | .ok s' =>
+      let d := digestOf s'.run.tree
+      let rec_ := if isSave op then
+          match s'.run.outs.getLast? with
+          | some b => s!"{d}/{fnvOf b}:{b.length}"
+          | none => d
+        else d
+      trace ops s' (rec_ :: acc)
+
+def withRun (img : String) (ops : List String) (k : List TOp → TRun → String) : String :=
+  match Uefi.EditDrv.parseHex img, ops.mapM parseWord with
+  | some image, some words =>
+    -- ParseCLI builds every visitor before the image is read; tighten_me's constructor does nothing
+    match Uefi.cliParse hooks (words.filterMap id) {} with
+    | .error e => "cli:" ++ errName e
+    | .ok (vs, st) =>
+      match weave words vs with
+      | none => "bad-op"
+      | some tops =>
+        match parseT hooks image st with
+        | .error e => "parse:" ++ errName e
+        | .ok s => k tops s
+  | _, _ => "bad-op"
+
+def handle : List String → Option String
+  | "tsteps" :: img :: ops => some <| withRun img ops fun ops s =>
+    let (status, recs, _) := trace ops s []
+    s!"{status} {digestOf s.run.tree} {if recs.isEmpty then "-" else joinWith "," recs}"
+  | "ttree" :: k :: img :: ops =>
+    match k.toNat? with
+    | none => some "bad-op"
+    | some k => some <| withRun img ops fun ops s =>
+      let (_, _, s') := trace (ops.take k) s []
+      s!"ok {dumpText s'.run.tree} free={s'.free}"
+  | _ => none
+
+end TreeDrv
+
 def handle : List String → String
+  | "tsteps" :: rest => (TreeDrv.handle ("tsteps" :: rest)).getD "bad-op"
+  | "ttree" :: rest => (TreeDrv.handle ("ttree" :: rest)).getD "bad-op"
   | ["run", pol0, ops, img] =>
     match pol0.toNat?, parseHex img with
     | some p, some d =>
